@@ -59,14 +59,14 @@ type opRec struct {
 }
 
 type hist struct {
-	c      *Ctx
-	focus  string
-	s      *Sys
-	pool   []string
-	parsed map[string]ref.Pattern
-	probes []probe
-	prev   []outcome // outcomes of probes after the previous step
-	ops    []opRec
+	c              *Ctx
+	focus          string
+	s              *Sys
+	pool           []string
+	parsed         map[string]ref.Pattern
+	probes         []probe
+	prev           []outcome // outcomes of probes after the previous step
+	ops            []opRec
 	maxLitSiblings int
 }
 
